@@ -1,7 +1,7 @@
 """C02 — boolean collision tests (structural clauses)."""
 from . import scopes
 from ..core.report import DOMAIN_D
-from ..rules import nesterov, mink, loops, runmin
+from ..rules import nesterov, mink, loops, runmin, libccd
 
 MODS = ["distance3d.gjk._gjk_jolt", "distance3d.gjk._gjk_libccd", "distance3d.mpr", "distance3d.gjk._gjk_nesterov_accelerated",
         "distance3d.gjk._gjk_nesterov_accelerated_primitives", "distance3d.minkowski"]
@@ -13,11 +13,12 @@ def run(idx, rep, tier):
         "Structural necessary conditions shared by the five boolean tests: Minkowski pairing and collider order at every "
         "support site (R-MINK; the pre-image arrays v1/v2 do not influence a boolean, so R-PAR is not part of C02), inflation / support agreement and "
         "type dispatch of the Nesterov tests, whose boolean is `distance < tolerance` after subtracting the inflation "
-        "(R-INFL, R-DISPATCH, R-DTREE), result-tuple roles (R-TUPLEROLE), iteration caps / exit discipline of all five loops "
+        "(R-INFL, R-DISPATCH, R-DTREE), the libccd simplex refinement keeps in every branch the feature its new direction is computed from (R-DOSIMPLEX), running minima are stored (R-RUNMIN), result-tuple roles (R-TUPLEROLE), iteration caps / exit discipline of all five loops "
         "(R-LOOP). The delta = 1e-3 L band and agreement on concrete inputs are NOT decided.")
     rep.assumptions = DOMAIN_D
     mink.r_mink(idx, rep, modules=MODS, floor=15)
     runmin.r_runmin(idx, rep, ["distance3d.gjk._gjk_jolt"], floor=2)
+    libccd.r_dosimplex(idx, rep)
     nesterov.r_infl(idx, rep)
     nesterov.r_dispatch(idx, rep)
     nesterov.r_dtree(idx, rep)
